@@ -59,7 +59,9 @@ def _work(args):
 
         def render(di):
             try:
-                return env.get_template(case["main"]).render(**datas[di]), ""
+                tpl = (env.get_template(case["main"], globals={k: J.to_py(v, case["objs"], [], {}) for k, v in case["tglobals"].items()})
+                       if case.get("tglobals") else env.get_template(case["main"]))
+                return tpl.render(**datas[di]), ""
             except Exception as e:  # noqa
                 name = type(e).__name__
                 for klass in type(e).__mro__:
@@ -81,7 +83,10 @@ def _work(args):
             n += 1
             if others and i % 2 == 0:
                 try:
-                    env.get_template(rnd.choice(others)).render(**datas[di])
+                    o = env.get_template(rnd.choice(others))
+                    o.render(**datas[di])
+                    if envlabel == "sync":
+                        str(o.module)          # other users of the template: its default module gets cached
                 except Exception:  # noqa
                     pass
         # concurrent threads on the same environment and the same data objects
@@ -119,7 +124,7 @@ def _work(args):
 
 def run(ck):
     quick = ck.tier == "quick"
-    cases = jgen.corpus(ck.seed + 29, *((90, 50, 70, 50) if quick else (2500, 1200, 1500, 1200)))
+    cases = jgen.corpus(ck.seed + 29, *((90, 50, 110, 120) if quick else (2500, 1200, 2500, 2500)))
     cases += jgen.aiter_cases(ck.seed + 2929, 40 if quick else 800, start_id=len(cases) + 1)
     for c in cases:
         c["cfg"]["rerender"] = True
